@@ -61,7 +61,7 @@ def pinv_psd(S):
     try:
         if abs(mp.det(S)) > mpf(10) ** (-40) * max(1, mp.mnorm(S, 1)) ** n:
             return mp.inverse(S)
-    except ZeroDivisionError:
+    except (ZeroDivisionError, TypeError):  # TypeError: mpmath LU pivot search on an all-zero column
         pass
     E, Q = mp.eigsy(S)
     tol = max(abs(e) for e in E) * mpf(10) ** (-30) if n else 0
